@@ -121,9 +121,40 @@ def lower_aligned():
     raise X.ExtractError("length-preserving lower-casing present in some detectors only: %r" % found)
 
 
+def scorer_multiword():
+    """PCFGPasswordScorer.create_multiword_detector: MultiWordDetector(threshold = 1, min_len = min_len)
+    with the local min_len, the class default of max_len, and the number of skipped probability classes"""
+    fn = X.find_func(X.parse("lib_scorer/pcfg_password_scorer.py"), "create_multiword_detector", "PCFGPasswordScorer")
+    calls = [n for n in ast.walk(fn) if isinstance(n, ast.Call) and isinstance(n.func, ast.Name) and n.func.id == "MultiWordDetector"]
+    if len(calls) != 1 or calls[0].args:
+        raise X.ExtractError("scorer: expected one MultiWordDetector(...) call with keywords")
+    local = {}
+    for n in ast.walk(fn):
+        if isinstance(n, ast.Assign) and len(n.targets) == 1 and isinstance(n.targets[0], ast.Name) \
+                and isinstance(n.value, ast.Constant):
+            local[n.targets[0].id] = n.value.value
+    kw = {}
+    for k in calls[0].keywords:
+        v = k.value
+        kw[k.arg] = v.value if isinstance(v, ast.Constant) else local[v.id]
+    if sorted(kw) != ["min_len", "threshold"]:
+        raise X.ExtractError("scorer MultiWordDetector call: unexpected keywords %r" % sorted(kw))
+    init = X.find_func(X.parse("lib_trainer/detection_rules/multiword_detector.py"), "__init__", "MultiWordDetector")
+    names = [a.arg for a in init.args.args]
+    defaults = dict(zip(names[-len(init.args.defaults):], [ast.literal_eval(d) for d in init.args.defaults]))
+    skips = [n.comparators[0].value for n in ast.walk(fn) if isinstance(n, ast.Compare) and isinstance(n.left, ast.Name)
+             and n.left.id == "skipped" and len(n.ops) == 1 and isinstance(n.ops[0], ast.Lt)
+             and isinstance(n.comparators[0], ast.Constant)]
+    if len(skips) != 1:
+        raise X.ExtractError("scorer: `skipped < N` not found exactly once")
+    # the words of length >= min_len only: `if key >= min_len`
+    return kw["threshold"], kw["min_len"], defaults["max_len"], skips[0]
+
+
 def extract():
     C = {}
     C["seg_lower_aligned"] = lower_aligned()
+    C["scorer_mw_threshold"], C["scorer_mw_min_len"], C["scorer_mw_max_len"], C["scorer_mw_skip"] = scorer_multiword()
     rows, nkb, mk, fp = keyboards()
     C["kb_rows_flat"] = rows              # 8 rows per layout, layouts in search order
     C["kb_layouts"] = nkb
@@ -142,7 +173,8 @@ def extract():
     C["mw_threshold"] = kw["threshold"]
     C["mw_min_len"] = kw["min_len"]
     C["mw_max_len"] = kw["max_len"]
-    for k in ("kb_min_run", "mw_threshold", "mw_min_len", "mw_max_len"):
+    for k in ("kb_min_run", "mw_threshold", "mw_min_len", "mw_max_len", "scorer_mw_threshold", "scorer_mw_min_len",
+              "scorer_mw_max_len", "scorer_mw_skip"):
         if not isinstance(C[k], int) or isinstance(C[k], bool) or C[k] < 0:
             raise X.ExtractError("%s: not a natural number" % k)
     write_unicode_gen()
